@@ -1,9 +1,156 @@
 import Driver.Util
-open Lean
+import Driver.PyJson
+import Torf.Model.Untrusted
+open Lean Torf Torf.Bencode Torf.Untrusted
 namespace Driver.C08
 
-/-- ops of property C08: `c08.<name>` -/
-def handle (op : String) (_j : Json) : Except String Json :=
-  throw s!"unknown op {op}"
+def errStr : Err → String
+  | .bdecode => "bdecode" | .metainfo => "metainfo" | .read => "read" | .magnet => "magnet"
+  | .url => "url" | .value => "value" | .internal t => "internal:" ++ t
+
+def kindOf : Except Err α → String
+  | .ok _ => "ok"
+  | .error e => errStr e
+
+/-- table of (utf-8 bytes, is well-formed URL) supplied by the harness; unknown strings count as
+    not well-formed -/
+def getUrlOk (j : Json) : Except String (Export.Bytes → Bool) := do
+  let tbl ← (← getArr j "urls").mapM fun e => do
+    let a ← e.getArr?
+    if h : a.size = 2 then
+      let k ← unhex (← a[0].getStr?)
+      let v ← a[1].getBool?
+      pure (k, v)
+    else throw "urls entry must be a pair"
+  pure fun b => (tbl.lookup b).getD false
+
+/-- `cd`: null (no integer creation date) | {"ok": pyval} | {"raise": "overflow"|"os"|"value"} -/
+def getFromTs (j : Json) : Except String (Int → TsResult) := do
+  let cd := j.getObjValD "cd"
+  if cd.isNull then pure fun _ => .valueerror else
+    match cd.getObjVal? "ok" with
+    | .ok v => let d ← pyOfJson v; pure fun _ => .ok d
+    | .error _ =>
+      match (← getStr cd "raise") with
+      | "overflow" => pure fun _ => .overflow
+      | "os" => pure fun _ => .oserror
+      | "value" => pure fun _ => .valueerror
+      | s => throw s!"unknown raise {s}"
+
+def mkEnv (j : Json) : Except String Env := do
+  return { memLimit := (← getNat j "mem"), decFuel := (← getNat j "decFuel"),
+           encFuel := (← getNat j "encFuel"), fromTs := (← getFromTs j), urlOk := (← getUrlOk j),
+           maxSize := (getOptNat j "maxSize").getD 10000000 }
+
+def documentedRead : List String := ["ok", "bdecode", "metainfo", "read"]
+def documentedReturned : List String := ["ok", "metainfo"]
+
+/-- op `c08.read`: {x, validate, how, mem, decFuel, encFuel, encFuelNV, cd, urls} ↦ the model's
+    outcome of read_stream / read and, for a returned torrent, of validate(), dump() and
+    dump(validate=False); the documented sets (spec); the hypotheses of the theorems -/
+def readOp (j : Json) : Except String Json := do
+  let x ← getHex j "x"
+  let validate ← getBool j "validate"
+  let how := (j.getObjValAs? String "how").toOption.getD "bytes"
+  let env ← mkEnv j
+  let envNV : Env := { env with encFuel := (getOptNat j "encFuelNV").getD env.encFuel }
+  let r : Except Err Items :=
+    match how with
+    | "bytes" => read env x validate
+    | "stream" => readStreamObj env (.data x) validate
+    | "stream-oserror" => readStreamObj env .raisesOS validate
+    | "file" => readFile env (.opened (.data x)) validate
+    | "file-oserror" => readFile env (.opened .raisesOS) validate
+    | _ => readFile env .openFails validate
+  let p := parseU env x
+  let hypMem := match p with | .error .memory => false | _ => true
+  let hypLen := how != "bytes" || x.length ≤ env.maxSize
+  let steps := parseSteps env.lim (if how == "bytes" then x else x.take env.maxSize)
+  let base : List (String × Json) :=
+    [("read", jstr (kindOf r)), ("steps", jnat steps), ("len", jnat x.length),
+     ("parse", jstr (match p with | .ok _ => "ok" | .error e => raiseName e)),
+     ("nodes", match p with | .ok v => jnat (nodes v) | .error _ => Json.null)]
+  let (more, hypT) : List (String × Json) × List (String × Json) :=
+    match r with
+    | .error _ => ([], [])
+    | .ok t =>
+      let v := validateT env t
+      let d := dumpT env t true
+      let dn := dumpT envNV t false
+      let unf := Validate.dumpNoValidate t
+      let encNeed := 3 + encFramesKvs (Validate.ensureInfo t)
+      ([("validate", jstr (kindOf v)), ("dump", jstr (kindOf d)), ("dumpnv", jstr (kindOf dn)),
+        ("encNeed", jnat encNeed)],
+       [("files", jbool (Validate.filesNotMapping t)),
+        ("encFuel", jbool (encNeed ≤ env.encFuel)), ("encFuelNV", jbool (encNeed ≤ envNV.encFuel)),
+        -- a ValueError of the encoder and a RecursionError compete: which comes first depends on
+        -- the traversal order, which the frame model does not track
+        -- since 19d011f both a ValueError and a RecursionError of the encoder end as MetainfoError,
+        -- so their order cannot be observed any more
+        ("encOrder", jbool (true || (match unf with | .ok _ => true | .error _ => false)))])
+  return jobj [("model", jobj (base ++ more)),
+               ("spec", jobj [("read", jarr (documentedRead.map jstr)),
+                              ("returned", jarr (documentedReturned.map jstr))]),
+               ("hyp", jbool (hypMem && hypLen)),
+               ("hyps", jobj ([("mem", jbool hypMem), ("len", jbool hypLen)] ++ hypT)),
+               ("hypName", jstr "len<=MAX ∧ no length prefix in (memLimit, ssizeMax] is reached")]
+
+/-! ### magnets -/
+
+def getStrList (j : Json) : Except String (List String) := do
+  (← j.getArr?).toList.mapM fun e => e.getStr?
+
+/-- the oracle values for one URI: {urlparse: null | [scheme, query], qs: [[key, [values…]]…],
+    urls: [[string, bool]…], ints: [[string, "<decimal>" | null]…]} -/
+def mkOracle (j : Json) : Except String MagnetOracle := do
+  let up := j.getObjValD "urlparse"
+  let upv : Option (String × String) ←
+    if up.isNull then pure none else do
+      let a ← getStrList up
+      match a with
+      | [s, q] => pure (some (s, q))
+      | _ => throw "urlparse must be [scheme, query]"
+  let qs ← (← getArr j "qs").mapM fun e => do
+    let a ← e.getArr?
+    if h : a.size = 2 then pure ((← a[0].getStr?), (← getStrList a[1])) else throw "qs entry"
+  let urls ← (← getArr j "urls").mapM fun e => do
+    let a ← e.getArr?
+    if h : a.size = 2 then pure ((← a[0].getStr?), (← a[1].getBool?)) else throw "urls entry"
+  let ints ← (← getArr j "ints").mapM fun e => do
+    let a ← e.getArr?
+    if h : a.size = 2 then
+      let v : Option Int ← if a[1].isNull then pure none else some <$> parseInt (← a[1].getStr?)
+      pure ((← a[0].getStr?), v)
+    else throw "ints entry"
+  return { urlparse := fun _ => upv, parseQs := fun _ => qs,
+           isUrl := fun s => (urls.lookup s).getD false,
+           intOf := fun s => (ints.lookup s).getD none,
+           split := fun s => (s.splitOn " ").filter (· != "") }
+
+/-- op `c08.magnet`: {uri, urlparse, qs, urls, ints} ↦ kind and the stored info hash -/
+def magnetOp (j : Json) : Except String Json := do
+  let uri ← getStr j "uri"
+  let o ← mkOracle j
+  let r := fromString o uri
+  let qsOk := (o.parseQs "").all fun kv => !kv.2.isEmpty
+  return jobj [("model", jobj [("kind", jstr (kindOf r)),
+                               ("infohash", match r with | .ok m => jstr m.infohash | .error _ => Json.null),
+                               ("xl", match r with
+                                      | .ok m => (match m.xl with | some n => jstr (toString n) | none => Json.null)
+                                      | .error _ => Json.null)]),
+               ("spec", jarr (["ok", "magnet", "url"].map jstr)),
+               ("hyp", jbool qsOk), ("hypName", jstr "parse_qs yields no empty value list")]
+
+/-- op `c08.xt`: {v} ↦ does the xt setter accept the string (regex model) -/
+def xtOp (j : Json) : Except String Json := do
+  let v ← getStr j "v"
+  return jobj [("model", match setXt v with | .ok ih => jstr ih | .error _ => Json.null)]
+
+def handle (op : String) (j : Json) : Except String Json :=
+  match op with
+  | "c08.read" => readOp j
+  | "c08.magnet" => magnetOp j
+  | "c08.xt" => xtOp j
+  | _ => throw s!"unknown op {op}"
 
 end Driver.C08
